@@ -14,7 +14,10 @@ def fingerprint(m, case):
     return {"kind": "render-mismatch", "variant": m["variant"]}
 
 
-VARIANTS = [{"label": "default"}, {"label": "unoptimized", "opts": {"optimized": False}}]
+# (async environments and generate() call blocks through the buffered code path, not through `yield from`)
+VARIANTS = [{"label": "default"}, {"label": "unoptimized", "opts": {"optimized": False}},
+            {"label": "async/render_async", "opts": {"enable_async": True}, "how": "render_async"},
+            {"label": "async/render", "opts": {"enable_async": True}}]
 
 
 def run(ck):
